@@ -230,11 +230,11 @@ func doBloomCheckForCol(segMicroIndex *metadata.SegmentMicroIndex, blockToCheck 
 			if colCMI.CmiType != sutils.CMI_BLOOM_INDEX[0] {
 				continue
 			}
-			needleExists = colCMI.Bf.TestString(entry)
+			needleExists = structs.BloomMayContainKey(colCMI.Bf, entry)
 			if !needleExists && checkInOriginalKeys {
 				originalEntry, ok := originalBloomKeys[entry]
 				if ok {
-					needleExists = colCMI.Bf.TestString(originalEntry)
+					needleExists = structs.BloomMayContainKey(colCMI.Bf, originalEntry)
 				}
 			}
 			if needleExists {
@@ -274,11 +274,11 @@ func doBloomCheckAllCol(segMicroIndex *metadata.SegmentMicroIndex, blockToCheck 
 				if cmi.CmiType != sutils.CMI_BLOOM_INDEX[0] {
 					continue
 				}
-				entryExists := cmi.Bf.TestString(entry)
+				entryExists := structs.BloomMayContainKey(cmi.Bf, entry)
 				if !entryExists && checkInOriginalKeys {
 					originalEntry, ok := originalBloomKeys[entry]
 					if ok {
-						entryExists = cmi.Bf.TestString(originalEntry)
+						entryExists = structs.BloomMayContainKey(cmi.Bf, originalEntry)
 					}
 				}
 
